@@ -133,6 +133,8 @@ fn main() {
             }
             // the Debug pass also places every byte buffer at an odd address
             guard::ODD_BYTE_BUFFERS.store(level == log::LevelFilter::Debug, std::sync::atomic::Ordering::SeqCst);
+            // ... and has every environment variable the source names set
+            set_source_env_vars(level == log::LevelFilter::Debug);
             let r1 = std::panic::catch_unwind(|| run(ctx));
             if r1.is_err() {
                 let p = ESCAPED_PANIC.lock().ok().and_then(|g| g.clone()).unwrap_or_else(|| "<unknown panic>".into());
@@ -148,6 +150,7 @@ fn main() {
     }
     clock::set_global_offset_ns(0);
     guard::ODD_BYTE_BUFFERS.store(false, std::sync::atomic::Ordering::SeqCst);
+    set_source_env_vars(false);
     set_logging(false);
     let r = std::panic::catch_unwind(|| run(ctx));
     let code = match r {
